@@ -36,6 +36,7 @@ CONSTANTS Cfgs,        \* configuration records [minPrice, minLimit, perByte, ma
           Epochs,      \* epochs EpochConfirmed is called with
           Txs,         \* transactions [price, gl, dl, value, bi]  (bi = cost of the built-in function called, 0 = none)
           GasUseds, Refunds, Balances,
+          Kinds,       \* which query actions are explored: subset of {"Fee", "GasUsed", "Refund", "Balance"}
           KnownDefects,\* named deviations of the code from the intended design that are modelled (see DefectNames)
           Log(_, _)
 
@@ -128,7 +129,7 @@ BalanceOut(tx, pp, bal) ==
 
 \* domains of the calls: gas used within the limit, refund within the processing part of the fee
 GasUsedDom(tx, g1, g2) == g1 <= g2 /\ g2 <= tx.gl
-RefundDom(tx, pp, r)   == pp >= 1 /\ r >= 0 /\ r <= TxFee(tx, pp) - MoveFee(tx)
+RefundDom(tx, pp, r)   == pp >= 1 /\ r >= 0 /\ (r = 0 \/ r <= TxFee(tx, pp) - MoveFee(tx))
 BalanceDom(tx, pp)     == pp >= 1 /\ tx.price >= 1
 
 -----------------------------------------------------------------------------
@@ -139,17 +140,26 @@ Flags(e) == [p |-> e >= cfg.penEpoch, m |-> e >= cfg.modEpoch]
 Init ==
     /\ cfg \in Cfgs /\ epoch = 0
     /\ fp = (0 >= cfg.penEpoch) /\ fm = (0 >= cfg.modEpoch)       \* registration calls EpochConfirmed(0)
-    /\ hist = <<[a |-> "New", in |-> cfg, out |-> [x |-> 0]]>>
+    /\ hist = <<[a |-> "New", in |-> cfg, out |-> [x |-> 0], cls |-> "none"]>>
 
 \* EpochConfirmed
 Epoch(e) ==
     /\ epoch' = e /\ fp' = Flags(e).p /\ fm' = Flags(e).m
     /\ UNCHANGED cfg
-    /\ hist' = Log(hist, [a |-> "Epoch", in |-> [e |-> e], out |-> [x |-> 0]])
+    /\ hist' = Log(hist, [a |-> "Epoch", in |-> [e |-> e], out |-> [x |-> 0], cls |-> "none"])
+
+\* Input classes in which the code is known to deviate from the property (see DefectNames / docs/fees.md).
+\* The class is a function of the call's input and of the flags only; the property invariants for these
+\* classes are stated separately (InvK_...) so that the remaining inputs keep being checked.
+DevClassOf(a, in) ==
+    IF a = "Refund" /\ in.r = 0 /\ in.tx.bi > 0 /\ in.tx.bi + MoveGas(in.tx) > in.tx.gl THEN "builtinAboveLimit"
+    ELSE IF a = "Refund" /\ in.r = 0 /\ in.tx.bi > 0 /\ ~fp /\ ~fm THEN "legacy"
+    ELSE IF a = "GasUsed" /\ ~fp /\ ~fm /\ in.g2 > MoveGas(in.tx) THEN "legacy"
+    ELSE "none"
 
 Query(a, in, o) ==
     /\ UNCHANGED cvars
-    /\ hist' = Log(hist, [a |-> a, in |-> in, out |-> o])
+    /\ hist' = Log(hist, [a |-> a, in |-> in, out |-> o, cls |-> DevClassOf(a, in)])
 
 Fee(tx, o)             == Query("Fee", [tx |-> tx], o)
 GasUsed(tx, g1, g2, o) == GasUsedDom(tx, g1, g2) /\ Query("GasUsed", [tx |-> tx, g1 |-> g1, g2 |-> g2], o)
@@ -159,13 +169,16 @@ Balance(tx, bal, o)    == BalanceDom(tx, o.pp) /\ Query("Balance", [tx |-> tx, b
 \* the design: every query returns what the operators above say, with the exact rational processing price
 Queries ==
     \E tx \in Txs : LET pp == PPDesign(tx) IN
-        \/ Fee(tx, FeeOut(tx, pp))
-        \/ \E g1, g2 \in GasUseds : GasUsed(tx, g1, g2, GasUsedOut(tx, pp, g1, g2))
-        \/ \E r \in Refunds : pp >= 1 /\ Refund(tx, r, RefundOut(tx, pp, r))
-        \/ \E b \in Balances : pp >= 1 /\ tx.price >= 1 /\ Balance(tx, b, BalanceOut(tx, pp, b))
+        \* fields a call does not read are pinned (sound reduction of the input space)
+        \/ "Fee" \in Kinds /\ tx.bi = 0 /\ Fee(tx, FeeOut(tx, pp))
+        \/ "GasUsed" \in Kinds /\ tx.bi = 0 /\ tx.value = 0
+              /\ \E g1, g2 \in GasUseds : GasUsed(tx, g1, g2, GasUsedOut(tx, pp, g1, g2))
+        \/ "Refund" \in Kinds /\ tx.value = 0 /\ \E r \in Refunds : pp >= 1 /\ Refund(tx, r, RefundOut(tx, pp, r))
+        \/ "Balance" \in Kinds /\ tx.bi = 0 /\ tx.gl = 0
+              /\ \E b \in Balances : pp >= 1 /\ tx.price >= 1 /\ Balance(tx, b, BalanceOut(tx, pp, b))
 
 Fresh == hist[Len(hist)].a \in {"New", "Epoch"}     \* queries are leaves of the exploration (they change no state)
-Next == (\E e \in Epochs : Epoch(e)) \/ (Fresh /\ Queries)
+Next == Fresh /\ ((\E e \in Epochs : Epoch(e)) \/ Queries)
 Spec == Init /\ [][Next]_vars
 
 -----------------------------------------------------------------------------
@@ -182,14 +195,21 @@ Inv_C21_FeeBounds ==
 Inv_C21_GasUsedMonotone ==
     (R.a = "GasUsed" /\ Passed) => R.out.f1 <= R.out.f2
 \* ... and never exceeds the full fee
-Inv_C21_GasUsedBelowFull ==
-    (R.a = "GasUsed" /\ Passed) => R.out.f2 <= R.out.full
+GasUsedBelowFull(c) == (R.a = "GasUsed" /\ Passed /\ R.cls = c) => R.out.f2 <= R.out.full
+Inv_C21_GasUsedBelowFull         == GasUsedBelowFull("none")
+InvK_C21_GasUsedBelowFull_legacy == GasUsedBelowFull("legacy")
 \* the reported gas used never exceeds the gas limit
-Inv_C21_GasUsedReported ==
-    (R.a = "Refund" /\ Passed) => R.out.gasUsed <= R.in.tx.gl
+GasUsedReported(c) == (R.a = "Refund" /\ Passed /\ R.cls = c) => R.out.gasUsed <= R.in.tx.gl
+Inv_C21_GasUsedReported                    == GasUsedReported("none")
+InvK_C21_GasUsedReported_legacy            == GasUsedReported("legacy")
+InvK_C21_GasUsedReported_builtinAboveLimit == GasUsedReported("builtinAboveLimit")
 \* a refund lowers the fee by exactly the refund (and without a refund the fee is never above the full fee)
-Inv_C21_RefundExact ==
-    (R.a = "Refund" /\ Passed) => IF R.in.r > 0 THEN R.out.fee = R.out.full - R.in.r ELSE R.out.fee <= R.out.full
+RefundExact(c) ==
+    (R.a = "Refund" /\ Passed /\ R.cls = c) =>
+        IF R.in.r > 0 THEN R.out.fee = R.out.full - R.in.r ELSE R.out.fee <= R.out.full
+Inv_C21_RefundExact                    == RefundExact("none")
+InvK_C21_RefundExact_legacy            == RefundExact("legacy")
+InvK_C21_RefundExact_builtinAboveLimit == RefundExact("builtinAboveLimit")
 \* C22: the fee at the estimated gas limit fits into balance - value
 Inv_C22_Affordable ==
     (R.a = "Balance" /\ R.out.err = "ok") => R.out.feeAt <= R.in.bal - R.in.tx.value
